@@ -1622,5 +1622,5 @@ func TestConcurrent(t *testing.T) {
 }
 
 func TestReplay(t *testing.T) {
-	kit.Replay(t, propSequential, propEnum, propShapes, propConcurrent, propWire, propMobile)
+	kit.Replay(t, propSequential, propEnum, propShapes, propConcurrent, propWire, propWireEnum, propMobile)
 }
